@@ -53,7 +53,7 @@ PROPS["C03"] = {
 PROPS["C05"] = {
     "title": "A new version becomes active only when the promotion rule allows it",
     "level": "exploration",
-    "level_text": "The promotion lattice of the property (strategy x age-vs-duration incl. the boundary instants x noRestartsDuration x last restart x pause source x unpaused x canary-valid x failed x presence of the recorded active set; 10368 points) is enumerated completely through the real ExtendedDaemonSet Reconcile on a store prepared by the real reconciler, on the virtual clock; each switch of status.activeReplicaSet is judged by a reference rule (three-valued at the boundary instants). The same rule is checked after every EDS reconcile of generated histories.",
+    "level_text": "The promotion lattice of the property (strategy x age-vs-duration incl. the boundary instants x noRestartsDuration x last restart x pause source x unpaused x canary-valid x failed x recorded active set present / being deleted under a finalizer / gone x recorded status.canary; 36288 points) is enumerated completely through the real ExtendedDaemonSet Reconcile on a store prepared by the real reconciler, on the virtual clock; each switch of status.activeReplicaSet is judged by a reference rule (three-valued at the boundary instants). The same rule is checked after every EDS reconcile of generated histories.",
     "level_note": "Exhaustive only for the finite lattice named here (exhaustive_subspaces in the evidence); durations other than the sampled ones and interleavings are covered by sampling in the history tests.",
     "technique": "exhaustive enumeration of a finite input lattice + property-based sampling (rapid) against a reference promotion rule; stateful histories with a per-reconcile invariant",
     "quick": {"jobs": [rapid_job("lattice-sample", "^TestC05Lattice$", 1500), rapid_job("lattice-all", "^TestC05Exhaustive$", 1, shards=4)]},
@@ -97,11 +97,11 @@ PROPS["C02"] = {
 PROPS["C04"] = {
     "title": "Canary blast radius: the new template runs only on the selected canary nodes",
     "level": "exploration",
-    "level_text": "Stateful property test biased to canaries (strategy always has a canary block, replicas as number or percent, second template edit during a canary, eligibility-changing templates, node churn, pause/valid annotations, every interleaving of the EDS reconcile with active/canary/leftover syncs, each sync also on store forks); after every reconcile: non-active sets create only on status.canary.nodes (unknown role: nothing), the active set neither creates nor deletes on canary nodes, no canary/leftover sync deletes the pod serving a non-canary node that is eligible for the active template, the node list never grows beyond the resolved replicas, canary label present during / absent after the canary.",
+    "level_text": "Stateful property test biased to canaries (strategy always has a canary block, replicas as number or percent, second template edit during a canary, eligibility-changing templates, node churn, pause/valid annotations, every interleaving of the EDS reconcile with active/canary/leftover syncs, each sync also on store forks); after every reconcile: non-active sets create only on status.canary.nodes (unknown role: nothing), the active set neither creates nor deletes on canary nodes, no canary/leftover sync deletes the pod serving a non-canary node that is eligible for the active template, the node list never grows beyond the resolved replicas, canary label present during / absent after the canary. The life cycle of the canary label is additionally enumerated completely over a scripted configuration space (hold by pause/freeze x abort by revert/failure/none x waiting time x re-promotion by canary-valid / removed canary strategy / fresh canary cycle x when the hold is lifted; 972 configurations) with the same monitors after every sync.",
     "level_note": SM_NOTE,
-    "technique": "stateful property-based testing (rapid) with per-step invariants over (state read, calls issued)",
-    "quick": {"jobs": [rapid_job("sm", "^TestC04SM$", 750, shards=4)]},
-    "thorough": {"jobs": [rapid_job("sm", "^TestC04SM$", 4000, shards=16, timeout="50m")]},
+    "technique": "stateful property-based testing (rapid) with per-step invariants over (state read, calls issued); exhaustive enumeration of a scripted scenario space for the canary label",
+    "quick": {"jobs": [rapid_job("sm", "^TestC04SM$", 750, shards=4), rapid_job("label-lifecycle-all", "^TestC04LabelLifecycleAll$", 1, shards=4)]},
+    "thorough": {"jobs": [rapid_job("sm", "^TestC04SM$", 4000, shards=14, timeout="50m"), rapid_job("label-lifecycle-all", "^TestC04LabelLifecycleAll$", 1, shards=6), rapid_job("label-lifecycle", "^TestC04LabelLifecycle$", 1500, shards=6, timeout="50m")]},
 }
 
 PROPS["C08"] = {
@@ -147,7 +147,7 @@ PROPS["C13"] = {
 PROPS["C14"] = {
     "title": "Status tells the truth about replica sets and pods",
     "level": "exploration",
-    "level_text": "Stateful property test: after every successful EDS reconcile the stored status is compared with a reference implementation of the documented status function applied to the replica-set statuses that reconcile read (sums, desired/upToDate from active and canary set, state, reason, Canary-Paused/Canary-Failed conditions); after every active/canary sync 0<=available<=ready<=current<=desired; after stabilisation the counters are compared with the pods and nodes that exist. A function-level test feeds the status function alone with 1-3 replica sets carrying generated counters (incl. leftover sets with non-zero counters), conditions, roles and annotation settings.",
+    "level_text": "Stateful property test: after every successful EDS reconcile the stored status is compared with a reference implementation of the documented status function applied to the replica-set statuses that reconcile read (sums, desired/upToDate from active and canary set, state, reason, Canary-Paused/Canary-Failed conditions); after every active/canary sync 0<=available<=ready<=current<=desired; after stabilisation the counters are compared with the pods and nodes that exist. A function-level test feeds the status function alone with 1-3 replica sets carrying generated counters (incl. leftover sets with non-zero counters and sets that are being deleted under a finalizer while they still report pods), conditions, roles and annotation settings.",
     "level_note": SM_NOTE,
     "technique": "stateful property-based testing (rapid) against a reference status function + quiescent-state oracle + function-level property test of the status function",
     "quick": {"jobs": [rapid_job("sm", "^TestC14SM$", 500, shards=4), rapid_job("function", "^TestC14StatusFunction$", 3000, shards=2)]},
@@ -193,7 +193,7 @@ PROPS["C10"] = {
 PROPS["C18"] = {
     "title": "At most one valid ExtendedDaemonsetSetting applies to a node",
     "level": "exploration",
-    "level_text": "Generated populations of 1-4 settings in one or two namespaces (creation times equal or different, selectors by labels or expressions including an unusable one, reference present / empty / absent / naming another EDS) and 0-4 labelled nodes; every setting is reconciled (twice) by the real setting reconciler in a generated order - in TestC18AllOrders in every permutation (exhaustive in the order dimension) - and the statuses are judged by a reference verdict: malformed => error, two settings matching a common node never both valid, invalid overlapping => conflict error, well-formed and overlapping no other => valid. Then the real replica-set sync creates pods and each pod's setting label must name a valid setting of that EDS whose selector matches the pod's node.",
+    "level_text": "Generated populations of 1-4 settings in one or two namespaces (creation times equal or different, selectors by labels or expressions including unusable ones (In without values, an unknown operator, an illegal label value), reference present / empty / absent / naming another EDS) and 0-4 labelled nodes; every setting is reconciled (twice) by the real setting reconciler in a generated order - in TestC18AllOrders in every permutation (exhaustive in the order dimension) - and the statuses are judged by a reference verdict: malformed => error, two settings matching a common node never both valid, invalid overlapping => conflict error, well-formed and overlapping no other => valid. Then the real replica-set sync creates pods and each pod's setting label must name a valid setting of that EDS whose selector matches the pod's node.",
     "level_note": "A setting without reference still counts as an overlapping neighbour (statement is silent); only the pairwise 'never both valid' and the explicit positive case are demanded.",
     "technique": "property-based testing (rapid) against a reference verdict; exhaustive enumeration of reconcile orders per generated population",
     "quick": {"jobs": [rapid_job("settings", "^TestC18Settings$", 2000, shards=2), rapid_job("all-orders", "^TestC18AllOrders$", 250, shards=2)]},
@@ -203,17 +203,17 @@ PROPS["C18"] = {
 PROPS["C07"] = {
     "title": "A failed canary is rolled back to the active version",
     "level": "fault_enumeration",
-    "level_text": "Generated histories end in a failed canary by each route (canary fail, restart storm -> auto-fail, canaryTimeout; paused or not; before or after the canary duration elapsed; replica sets or EDS reconciled first) and the rollback reconcile meets each fault position of its two-write window (status write rejected, status applied but answer lost, process stop between the writes, spec write rejected, spec applied but answer lost, stop before the status write; controllers rebuilt after a stop). Within 25 fair rounds spec.template must equal the active set's template, status.canary be nil, status.activeReplicaSet be unchanged and every former canary node run one Ready pod of the active template; the failed set must exist for at least two minutes and is only deleted with an all-zero status (rs-gc monitor); the promotion-rule and status monitors run throughout. TestC07Window enumerates routes x fault positions x paused x after-duration x reconcile order completely for a 3-node cluster.",
+    "level_text": "Generated histories end in a failed canary by each route (canary fail, restart storm -> auto-fail, canaryTimeout; paused or not; before or after the canary duration elapsed; replica sets or EDS reconciled first) and the rollback reconcile meets each fault position of its two-write window (status write rejected with a generic error or with Conflict, status applied but answer lost, process stop between the writes, spec write rejected with a generic error or with Conflict, spec applied but answer lost, stop before the status write; controllers rebuilt after a stop); optionally the rollout is frozen or the rolling update paused for three minutes from the failure on while the canary pods crash-loop, so the failed set still reports pods past its retention. Within 25 fair rounds spec.template must equal the active set's template, status.canary be nil, status.activeReplicaSet be unchanged and every former canary node run one Ready pod of the active template; the failed set must exist for at least two minutes and is only deleted with an all-zero status (rs-gc monitor); the promotion-rule and status monitors run throughout. TestC07Window enumerates routes x 9 fault positions/kinds x paused x after-duration x reconcile order x hold (none, frozen, rolling-update-paused) completely for a 3-node cluster (648 configurations).",
     "level_note": "Exhaustive only for the finite product named (168 combinations, exhaustive_subspaces in the evidence); cluster sizes and replicas are sampled in TestC07Rollback.",
     "technique": "fault injection at every position of the two-write window (enumerated) + property-based sampling (rapid) of failure routes, with a bounded-rounds recovery oracle",
-    "quick": {"jobs": [rapid_job("window", "^TestC07Window$", 1), rapid_job("rollback", "^TestC07Rollback$", 250, shards=4)]},
-    "thorough": {"jobs": [rapid_job("window", "^TestC07Window$", 1), rapid_job("rollback", "^TestC07Rollback$", 1500, shards=15, timeout="50m")]},
+    "quick": {"jobs": [rapid_job("window", "^TestC07Window$", 1, shards=4), rapid_job("rollback", "^TestC07Rollback$", 250, shards=4)]},
+    "thorough": {"jobs": [rapid_job("window", "^TestC07Window$", 1, shards=4), rapid_job("rollback", "^TestC07Rollback$", 1500, shards=12, timeout="50m")]},
 }
 
 PROPS["C11"] = {
     "title": "Any failed API call or controller crash is recovered without breaking safety",
     "level": "fault_enumeration",
-    "level_text": "Corpus of nine scenarios (first deployment, rolling update, canary start, promotion by validation and by time, failure and rollback by command / restart storm / timeout, node removal and taint, settings change, migration from a DaemonSet) played by milestone-driven scripts. The failure-free run records the K API calls of the controllers (reads included); a faulted re-run injects, at call k, one of {call rejected, call applied but answer lost, process stop before the call, process stop after the call} (fresh controller instances after a stop), then failure-free fair rounds until quiet. Oracle: the safety monitors (eligible/once-per-node creation, availability budget, canary confinement and list growth, promotion rule, ownership, no panic - the five safety properties the statement lists) after every step, and the final canonical state (pods per node with template hash / readiness / labels / resources, EDS status, replica sets) equal to the failure-free run's modulo names and timestamps. Quick: sampled positions, kinds and pairs over generated configurations plus the exhaustive single-fault sweep of three scenarios; thorough: every single position x kind for all nine scenarios (exhaustive for singles of the fixed configuration) and more sampled pairs.",
+    "level_text": "Corpus of nine scenarios (first deployment, rolling update, canary start, promotion by validation and by time, failure and rollback by command / restart storm / timeout, node removal and taint, settings change, migration from a DaemonSet) played by milestone-driven scripts (canary scenarios with an uneven restart history of the daemon pods, so that the node choice depends on what the selection reads). The failure-free run records the K API calls of the controllers (reads included); a faulted re-run injects, at call k, one of {call rejected with a generic error, call rejected with the API status error typical for the verb (AlreadyExists, Conflict, TooManyRequests, ServerTimeout), call applied but answer lost, process stop before the call, process stop after the call} (fresh controller instances after a stop), then failure-free fair rounds until quiet. Oracle: the safety monitors (eligible/once-per-node creation, availability budget, canary confinement and list growth, promotion rule, ownership, no panic - the five safety properties the statement lists) after every step, and the final canonical state (pods per node with template hash / readiness / labels / resources, EDS status, replica sets) equal to the failure-free run's modulo names and timestamps. Quick: sampled positions, kinds and pairs over generated configurations plus the exhaustive single-fault sweep of three scenarios; thorough: every single position x kind for all nine scenarios (exhaustive for singles of the fixed configuration) and more sampled pairs.",
     "level_note": "Exhaustive for single faults of one fixed configuration per scenario; other configurations and pairs are sampled. A stopped process is modelled as every later call of that reconcile failing, then fresh reconciler instances.",
     "technique": "fault enumeration over the recorded API-call sequence (every index x fault kind) + property-based sampling (rapid) of configurations and fault pairs; differential oracle against the failure-free run",
     "quick": {"jobs": [rapid_job("sampled", "^TestC11Sampled$", 40, shards=4), rapid_job("singles", "^TestC11Exhaustive$", 1, shards=6, env={"VERIF_SCENARIOS": "rolling-update,failure-rollback,canary-start"})]},
@@ -225,7 +225,7 @@ PROPS["C17"] = {
     "level": "exploration",
     "race": True,
     "log_violations": True,
-    "level_text": "Built with the Go race detector. (a) Batches of 2-64 simultaneous pod creations, update-deletions and clean-up deletions through the controller's parallel helpers and through whole replica-set Reconciles, with a generated subset (none/some/all) of the API calls failing: the number of errors returned must equal the number of injected failures, ReconcileError must be True iff a pod operation failed and a failed clean-up must show in ReconcileError or PodsCleanupDone. (b) The ExtendedDaemonSet, replica-set (two workers), setting and PodTemplate reconcilers, a kubelet model and a user run as goroutines against one store for a bounded number of iterations with a generated fraction of writes failing; any race report or panic is a violation.",
+    "level_text": "Built with the Go race detector. (a) Batches of 2-64 simultaneous pod creations, update-deletions and clean-up deletions through the controller's parallel helpers and through whole replica-set Reconciles, with a generated subset (none/some/all) of the API calls failing, either with a generic error or with the API status error typical for the verb (AlreadyExists for a creation whose generated name collided, TooManyRequests for a deletion): the number of errors returned must equal the number of injected failures, ReconcileError must be True iff a pod operation failed and a failed clean-up must show in ReconcileError or PodsCleanupDone. (b) The ExtendedDaemonSet, replica-set (two workers), setting and PodTemplate reconcilers, a kubelet model and a user run as goroutines against one store for a bounded number of iterations with a generated fraction of writes failing; any race report or panic is a violation.",
     "level_note": "Interleavings are those the Go scheduler produces under -race with GOMAXPROCS=16; the harness does not own the schedule. The race detector's happens-before analysis flags an unsynchronised access even when no update is actually lost.",
     "technique": "property-based testing (rapid) of generated concurrent workloads under the Go race detector, with an error-count oracle under injected faults",
     "quick": {"jobs": [rapid_job("batches", "^TestC17Batches$", 120, shards=2, requires="verif_par"), rapid_job("concurrent", "^TestC17Concurrent$", 40, shards=2)]},
